@@ -1,3 +1,19 @@
+(* C15 - soundness of the Strop model for matrices of ANY size, and the cell count.
+
+   strop_sound : every instance offered for a well-formed matrix is a decomposition.
+   Structure of the proof:
+     1. [counting]     the cell-count validity test (num_cells = trunk area + the four
+                       histogram sums), together with the empty corners and a full trunk,
+                       forces every walked segment to consist of its leading run of ones
+                       only (9-block split of the grid, one double-sum swap);
+     2. [KN..KE]       hence a cell beside the trunk is true iff it lies within the run;
+     3. [groups_count] the run-length walk over a histogram covers index j exactly once
+                       when the histogram is non-zero there, with that value;
+     4. [cN_spec..]    cover count of each side's rectangles; [build_decomp] assembles;
+     5. [trunks_full]  every entry of the (filtered) interval table is a full rectangle
+                       of ones inside the grid (invariant of the table fill).
+   strop_rects_area / decomp_area : the rectangles of any decomposition have as many
+   cells as the matrix has ones. *)
 From Coq Require Import List Bool Arith Lia.
 From FrameModel Require Import Strop.Strop Strop.Spec Strop.StropBase.
 Import ListNotations.
@@ -620,4 +636,243 @@ Proof.
       destruct HT as [[-> HT]|[-> HT]]; destruct HN as [[-> HN]|[-> HN]];
       destruct HS as [[-> HS]|[-> HS]]; destruct HW as [[-> HW]|[-> HW]];
       destruct HE as [[-> HE]|[-> HE]]; lia.
+Qed.
+
+(* ---------- the candidate trunks are full rectangles of the grid ---------- *)
+Lemma index_of_some b l k : index_of b l = Some k ->
+  k < length l /\ nth k l (negb b) = b /\ forall x, x < k -> nth x l b = negb b.
+Proof.
+  revert k. induction l as [|a l IH]; intros k H; [discriminate|]. cbn in H.
+  destruct (Bool.eqb a b) eqn:E.
+  - inversion H; subst. apply eqb_prop in E. subst. cbn. repeat split; [lia|]. intros; lia.
+  - destruct (index_of b l) as [k'|]; [|discriminate]. inversion H; subst.
+    destruct (IH k' eq_refl) as (A & B & C). cbn. repeat split; [lia|assumption|].
+    intros x Hx. destruct x; [|apply C; lia]. destruct a, b; cbn in *; congruence.
+Qed.
+Lemma index_of_none b l : index_of b l = None -> forall x, x < length l -> nth x l b = negb b.
+Proof.
+  induction l as [|a l IH]; intros H x Hx; [cbn in Hx; lia|]. cbn in H.
+  destruct (Bool.eqb a b) eqn:E; [discriminate|].
+  destruct (index_of b l); [discriminate|]. destruct x; [destruct a, b; cbn in *; congruence|].
+  cbn. apply IH; [reflexivity|cbn in Hx; lia].
+Qed.
+
+Lemma row_interval_good R l h : row_interval R = Some (l, h) ->
+  l <= h /\ forall x, l <= x <= h -> nth x R false = true.
+Proof.
+  unfold row_interval, index_from. cbn [skipn].
+  destruct (index_of true R) as [ft|] eqn:E1; [|discriminate]. cbn [option_map Nat.add].
+  destruct (index_of_some _ _ _ E1) as (A1 & A2 & _). cbn in A2.
+  destruct (index_of false (skipn (ft + 1) R)) as [k|] eqn:E2; cbn [option_map].
+  - destruct (index_of_some _ _ _ E2) as (B1 & _ & B3).
+    destruct (index_of true (skipn (ft + 1 + k + 1) R)); cbn [option_map]; [discriminate|].
+    intros H. injection H as Hl Hh. subst l h. split; [lia|]. intros x Hx.
+    destruct (Nat.eq_dec x ft) as [->|Hne]; [exact A2|].
+    specialize (B3 (x - (ft + 1)) ltac:(lia)). rewrite nth_skipn' in B3.
+    replace (ft + 1 + (x - (ft + 1))) with x in B3 by lia. cbn in B3. exact B3.
+  - intros H. injection H as Hl Hh. subst l h. split; [lia|]. intros x Hx.
+    destruct (Nat.eq_dec x ft) as [->|Hne]; [exact A2|].
+    pose proof (index_of_none _ _ E2 (x - (ft + 1))) as B3. rewrite skipn_length in B3.
+    specialize (B3 ltac:(lia)). rewrite nth_skipn' in B3.
+    replace (ft + 1 + (x - (ft + 1))) with x in B3 by lia. cbn in B3. exact B3.
+Qed.
+
+Definition good (M : BoolMatrix) (r0 r1 : nat) (iv : Interval) : Prop :=
+  match iv with
+  | None => True
+  | Some (l, h) => l <= h /\ forall r x, r0 <= r <= r1 -> l <= x <= h -> cell M r x = true
+  end.
+
+Lemma good_row M r : good M r r (row_interval (nth r M [])).
+Proof.
+  unfold good. destruct (row_interval (nth r M [])) as [[l h]|] eqn:E; [|exact Logic.I].
+  destruct (row_interval_good _ _ _ E) as [A B]. split; [assumption|].
+  intros r' x Hr Hx. replace r' with r by lia. unfold cell. apply B. assumption.
+Qed.
+
+Lemma good_inter M a b c d lo hi i1 i2 : good M a b i1 -> good M c d i2 ->
+  (forall r, lo <= r <= hi -> a <= r <= b \/ c <= r <= d) -> good M lo hi (inter i1 i2).
+Proof.
+  intros G1 G2 Hc. destruct i1 as [[l1 h1]|], i2 as [[l2 h2]|]; cbn; try exact Logic.I.
+  destruct (Nat.max l1 l2 <=? Nat.min h1 h2) eqn:E; [|exact Logic.I]. b2p. cbn.
+  destruct G1 as [_ G1], G2 as [_ G2]. split; [assumption|]. intros r x Hr Hx.
+  destruct (Hc r Hr); [apply G1|apply G2]; lia.
+Qed.
+
+Lemma col_step_good M j d : good M j j d -> forall prev k, k + length prev = j ->
+  (forall row, row < length prev -> good M (k + row) (j - 1) (nth row prev None)) ->
+  length (col_step prev d) = S (length prev) /\
+  forall row, row <= length prev -> good M (k + row) j (nth row (col_step prev d) None).
+Proof.
+  intros Gd. induction prev as [|p prev IH]; intros k Hk Hp.
+  - cbn. split; [reflexivity|]. intros row Hr. replace row with 0 by (cbn in Hr; lia).
+    cbn in Hk. replace (k + 0) with j by lia. exact Gd.
+  - cbn [col_step length] in *. destruct (IH (S k)) as [L G]; [lia| |].
+    { intros row Hr. replace (S k + row) with (k + S row) by lia. apply (Hp (S row)). lia. }
+    split; [cbn; rewrite L; reflexivity|]. intros row Hr. destruct row.
+    + cbn [nth]. apply (good_inter M (S k) j k (j - 1)).
+      * replace (hd None (col_step prev d)) with (nth 0 (col_step prev d) None)
+          by (destruct (col_step prev d); reflexivity).
+        replace (S k) with (S k + 0) by lia. apply G. lia.
+      * replace k with (k + 0) at 1 by lia. apply (Hp 0). lia.
+      * intros r Hr'. lia.
+    + cbn [nth]. replace (k + S row) with (S k + row) by lia. apply G. lia.
+Qed.
+
+Lemma fill_good M : forall diag prev j, length prev = j ->
+  (forall row, row < j -> good M row (j - 1) (nth row prev None)) ->
+  (forall m, m < length diag -> good M (j + m) (j + m) (nth m diag None)) ->
+  forall m row, m < length diag -> row <= j + m ->
+    good M row (j + m) (nth row (nth m (fill prev diag) []) None).
+Proof.
+  induction diag as [|d diag IH]; intros prev j Hl Hp Hd m row Hm Hr; [cbn in Hm; lia|].
+  cbn [fill].
+  destruct (col_step_good M j d) with (prev := prev) (k := 0) as [L G].
+  { replace j with (j + 0) by lia. apply (Hd 0). cbn. lia. }
+  { lia. }
+  { intros r Hr'. cbn. apply Hp. lia. }
+  destruct m.
+  - cbn [nth]. replace (j + 0) with j in * by lia. apply (G row). lia.
+  - cbn [nth]. replace (j + S m) with (S j + m) by lia. apply IH.
+    + rewrite <- Hl. exact L.
+    + intros r Hr'. replace (S j - 1) with j by lia. apply (G r). lia.
+    + intros m' Hm'. replace (S j + m') with (j + S m') by lia. apply (Hd (S m')). cbn. lia.
+    + cbn in Hm. lia.
+    + lia.
+Qed.
+
+Lemma table_good M row column : column < length M -> row <= column ->
+  good M row column (tab_get (table M) row column).
+Proof.
+  intros Hc Hr. unfold tab_get, table.
+  pose proof (fill_good M (map row_interval M) [] 0 eq_refl) as F. cbn [Nat.add] in F.
+  apply F; [intros; lia| |rewrite map_length; assumption|assumption].
+  intros m Hm. rewrite map_length in Hm.
+  change None with (row_interval []). rewrite map_nth. apply good_row.
+Qed.
+
+(* the prime filters only empty entries *)
+Definition sub (c' c : list Interval) : Prop :=
+  forall row, nth row c' None = None \/ nth row c' None = nth row c None.
+Lemma sub_refl c : sub c c. Proof. intros row. right. reflexivity. Qed.
+Lemma filt_row_sub : forall c c2, sub (filt_row c c2) c.
+Proof.
+  induction c as [|a c IH]; intros c2 row; [right; reflexivity|]. destruct c2 as [|b c2]; [right; reflexivity|].
+  cbn [filt_row]. destruct row; cbn [nth]; [destruct (interval_eqb a b); auto|apply IH].
+Qed.
+Lemma filt_col_sub : forall c above, sub (filt_col above c) c.
+Proof.
+  induction c as [|a c IH]; intros above row; [right; reflexivity|].
+  cbn [filt_col]. destruct row; cbn [nth]; [destruct (interval_eqb a above); auto|apply IH].
+Qed.
+Lemma prime_col_sub c : sub (prime_col c) c.
+Proof. destruct c as [|a c]; intros row; [right; reflexivity|]. destruct row; cbn; [auto|apply filt_col_sub]. Qed.
+Lemma prime_rows_sub : forall cols k, sub (nth k (prime_rows cols) []) (nth k cols []).
+Proof.
+  induction cols as [|c rest IH]; intros k; [apply sub_refl|].
+  cbn [prime_rows]. destruct rest as [|c' rest'].
+  - apply sub_refl.
+  - destruct k; [cbn [nth]; apply filt_row_sub|]. cbn [nth]. apply IH.
+Qed.
+
+Lemma filtered_get M row column l h :
+  tab_get (map prime_col (prime_rows (table M))) row column = Some (l, h) ->
+  tab_get (table M) row column = Some (l, h).
+Proof.
+  unfold tab_get. intros H.
+  change (@nil Interval) with (prime_col []) in H. rewrite map_nth in H.
+  destruct (prime_col_sub (nth column (prime_rows (table M)) []) row) as [E|E]; [congruence|].
+  rewrite E in H.
+  destruct (prime_rows_sub (table M) column row) as [E'|E']; [congruence|]. rewrite E' in H. exact H.
+Qed.
+
+Lemma collect_in n cols t : In t (collect n cols) ->
+  exists row column l h, t = mkSR row column l h /\ row <= column /\ column < n /\
+                         tab_get cols row column = Some (l, h).
+Proof.
+  unfold collect. intros H. apply in_flat_map in H. destruct H as (row & Hrow & H).
+  apply in_flat_map in H. destruct H as (column & Hcol & H).
+  apply in_seq in Hrow. apply in_seq in Hcol.
+  destruct (tab_get cols row column) as [[l h]|] eqn:E; [|destruct H].
+  destruct H as [<-|[]]. exists row, column, l, h. repeat split; auto; lia.
+Qed.
+
+Lemma trunks_full M t : wf_matrix M = true -> In t (get_trunks_matrix M) -> trunk_full M t.
+Proof.
+  intros W H. unfold get_trunks_matrix in H. apply collect_in in H.
+  destruct H as (row & column & l & h & -> & H1 & H2 & H3).
+  apply filtered_get in H3. pose proof (table_good M row column H2 H1) as G. rewrite H3 in G.
+  destruct G as [G1 G2]. unfold trunk_full, rect_ok. cbn.
+  assert (Hh : h < ncols M).
+  { assert (C : cell M row h = true) by (apply G2; lia). unfold cell in C.
+    rewrite <- (wf_rows M W row) by (unfold nrows; lia).
+    destruct (le_lt_dec (length (nth row M [])) h) as [Q|Q]; [|assumption].
+    rewrite nth_overflow in C by assumption. discriminate. }
+  unfold nrows. repeat split; auto; try lia.
+Qed.
+
+(* ====================== soundness, any size ====================== *)
+Theorem strop_sound : forall M inst, wf_matrix M = true -> In inst (instances M) ->
+  decomp M (trunk inst) (branches inst).
+Proof.
+  intros M inst W H. unfold instances in H. apply in_flat_map in H. destruct H as (t & Ht & H).
+  unfold mk_instance in H. destruct (valid M t) eqn:V; [|destruct H]. destruct H as [<-|[]].
+  unfold potential_trunks in Ht. apply filter_In in Ht. destruct Ht as [Ht Hc].
+  apply andb_true_iff in Hc. destruct Hc as [_ EC].
+  change (trunk (build_instance M t)) with t.
+  apply build_decomp; auto. apply trunks_full; assumption.
+Qed.
+
+(* ====================== cell count of a decomposition ====================== *)
+Lemma grid_rect nr nc r : rect_ok nr nc r ->
+  sumf (fun i => sumf (fun j => b2n (in_rectb r i j)) (seq 0 nc)) (seq 0 nr) = area r.
+Proof.
+  intros (H1 & H2 & H3 & H4).
+  assert (Hrow : forall i, rlo r <= i <= rhi r ->
+            sumf (fun j => b2n (in_rectb r i j)) (seq 0 nc) = S (chi r) - clo r).
+  { intros i Hi. rewrite (seq_split3 nc (clo r) (chi r) H3 H4), !sumf_app.
+    rewrite (sumf_zero _ (seq 0 (clo r))), (sumf_zero _ (seq (S (chi r)) _)).
+    - rewrite (sumf_ext _ (fun _ => 1)); [rewrite sumf_const, seq_length; lia|].
+      intros j Hj. apply in_seq in Hj. unfold in_rectb. bd; try lia. reflexivity.
+    - intros j Hj. apply in_seq in Hj. unfold in_rectb. bd; try lia; reflexivity.
+    - intros j Hj. apply in_seq in Hj. unfold in_rectb. bd; try lia; reflexivity. }
+  assert (Hout : forall i, ~ (rlo r <= i <= rhi r) ->
+            sumf (fun j => b2n (in_rectb r i j)) (seq 0 nc) = 0).
+  { intros i Hi. apply sumf_zero. intros j _. unfold in_rectb. bd; try lia; reflexivity. }
+  rewrite (seq_split3 nr (rlo r) (rhi r) H1 H2), !sumf_app.
+  rewrite (sumf_zero _ (seq 0 (rlo r))), (sumf_zero _ (seq (S (rhi r)) _)).
+  - rewrite (sumf_ext _ (fun _ => S (chi r) - clo r)); [rewrite sumf_const, seq_length; unfold area; lia|].
+    intros i Hi. apply in_seq in Hi. apply Hrow. lia.
+  - intros i Hi. apply in_seq in Hi. apply Hout. lia.
+  - intros i Hi. apply in_seq in Hi. apply Hout. lia.
+Qed.
+
+Lemma grid_cover nr nc rs : Forall (rect_ok nr nc) rs ->
+  sumf (fun i => sumf (fun j => cover_count rs i j) (seq 0 nc)) (seq 0 nr) = sum (map area rs).
+Proof.
+  induction rs as [|r rs IH]; intros H.
+  - cbn. apply sumf_zero. intros. apply sumf_zero. reflexivity.
+  - inversion H; subst. cbn [map]. change (sum (area r :: map area rs)) with (area r + sum (map area rs)).
+    rewrite <- IH by assumption. rewrite <- (grid_rect nr nc r) by assumption.
+    rewrite <- sumf_add. apply sumf_ext. intros i _. rewrite <- sumf_add. apply sumf_ext. intros j _.
+    apply cover_cons.
+Qed.
+
+(* any decomposition has as many cells as the matrix has true cells *)
+Theorem decomp_area M T Bs : wf_matrix M = true -> decomp M T Bs ->
+  sum (map area (T :: Bs)) = num_cells M.
+Proof.
+  intros W (HT & HB & P). rewrite (num_cells_blk M W).
+  rewrite <- (grid_cover (nrows M) (ncols M)).
+  - unfold blk. apply sumf_ext. intros i Hi. apply sumf_ext. intros j Hj.
+    apply in_seq in Hi. apply in_seq in Hj. unfold g. rewrite (P i j) by lia.
+    destruct (cell M i j); reflexivity.
+  - constructor; [assumption|]. apply Forall_forall. intros B HBin.
+    rewrite Forall_forall in HB. exact (proj1 (HB B HBin)).
+Qed.
+
+Theorem strop_rects_area : forall M inst, wf_matrix M = true -> In inst (instances M) ->
+  sum (map area (rectangles inst)) = num_cells M.
+Proof.
+  intros M inst W H. apply (decomp_area M (trunk inst) (branches inst) W). apply strop_sound; assumption.
 Qed.
